@@ -538,6 +538,15 @@ type vwMut struct {
 	Raw  []byte
 }
 
+// vwExact returns a copy of b whose capacity equals its length: the receiving code gets no slack behind the bytes it was
+// given (network buffers are decoded into exact-size slices), so slicing past the end panics instead of silently
+// reading stale bytes
+func vwExact(b []byte) []byte {
+	c := make([]byte, len(b))
+	copy(c, b)
+	return c[:len(c):len(c)]
+}
+
 // vwMutations: truncation at every offset (a seeded sample of maxTrunc offsets when longer) and nflip single-bit flips
 func vwMutations(raw []byte, rng *mrand.Rand, maxTrunc, nflip int) []vwMut {
 	var out []vwMut
@@ -547,7 +556,7 @@ func vwMutations(raw []byte, rng *mrand.Rand, maxTrunc, nflip int) []vwMut {
 	}
 	if n <= maxTrunc {
 		for k := 0; k < n; k++ {
-			out = append(out, vwMut{"trunc", k, raw[:k]})
+			out = append(out, vwMut{"trunc", k, vwExact(raw[:k])})
 		}
 	} else {
 		seen := map[int]bool{}
@@ -555,13 +564,13 @@ func vwMutations(raw []byte, rng *mrand.Rand, maxTrunc, nflip int) []vwMut {
 			k := rng.Intn(n)
 			if !seen[k] {
 				seen[k] = true
-				out = append(out, vwMut{"trunc", k, raw[:k]})
+				out = append(out, vwMut{"trunc", k, vwExact(raw[:k])})
 			}
 		}
 	}
 	for i := 0; i < nflip; i++ {
 		p := rng.Intn(n * 8)
-		m := append([]byte(nil), raw...)
+		m := vwExact(raw)
 		m[p/8] ^= 1 << uint(p%8)
 		out = append(out, vwMut{"flip", p, m})
 	}
